@@ -152,6 +152,13 @@ theorem typeRecList_enc' (s : Schema) (url : String → Option String) (l : List
   | none => simp [hr] at h
   | some rs => exact ⟨rs, rfl, by simpa [hr] using h⟩
 
+/-- what the reader keeps of a schema value rendered as an introspection result: everything, with the components
+    outside a definition's kind emptied (`possibleTypes` of an interface is not read), first definition of a
+    repeated name kept, root-types node at a built-in position -/
+def readBack (s : Schema) : Schema :=
+  { desc := s.desc, roots := s.roots, explicitRoots := false,
+    types := extendTypes [] (s.types.map AstSchema.cleanType), directives := extendDirectives [] s.directives }
+
 /-- the reader inverts the specification's renderer (for a schema with a query root) -/
 theorem fromIntrospection_encode (s : Schema) (url : String → Option String) (q : String)
     (hq : s.roots.query = some q) :
